@@ -102,7 +102,7 @@ CLAIMED['C14'] = dict(level='other', design='DESIGN.md section 7 (C14)',
 CLAIMED['C20'] = dict(level='proof', design='DESIGN.md section 7 (C20)', technique=T_,
     text='System lifecycle contracts (registration with the most recent system, single initialisation, active-system check, '
          'find_assets) and late creation: the real constructor chains are executed with the system already initialised; reads of '
-         'not-yet-assigned attributes are AttributeError paths.  Four late-creation defects repaired (fix: commits).',
+         'not-yet-assigned attributes are AttributeError paths.  Five late-creation defects repaired (fix: commits).',
     note='Trusted: pyvc encoding; two-run equality late vs early creation not machine-checked.')
 CLAIMED['C17'] = dict(level='proof', design='DESIGN.md section 7 (C17)', technique=T_,
     text='PartBatcher unpack/collect/move contracts with a ghost counter of moved leaves (element-wise sequence statements), '
